@@ -196,14 +196,16 @@ class GeneInterval(AbstractFeatureIntervalCollection):
         """Wrapper function used by both :func:`GeneInterval.get_merged_transcript`
         and :func:`GeneInterval.get_merged_cds`.
         """
-        merged = reduce(lambda x, y: x.union(y), intervals)
+        # children may be on different strands; the merged feature is on the strand of this gene
+        strand = self.chunk_relative_location.strand
+        merged = reduce(lambda x, y: x.union(y), (i.reset_strand(strand) for i in intervals))
         interval_starts = [x.start for x in merged.blocks]
         interval_ends = [x.end for x in merged.blocks]
 
         return FeatureInterval(
             interval_starts=interval_starts,
             interval_ends=interval_ends,
-            strand=self.chunk_relative_location.strand,
+            strand=strand,
             qualifiers=self._export_qualifiers_to_list(),
             sequence_guid=self.sequence_guid,
             sequence_name=self.sequence_name,
